@@ -223,6 +223,23 @@ func GenQFillProgram(t *rapid.T, p QGenParams) *QProgram {
 		prog.Cfg.InitMeta = 4
 	}
 	var steps []QStep
+	if rapid.IntRange(0, 3).Draw(t, "bigFlush") == 0 {
+		// one flush on the young file takes (nearly) all of its pages: the write buffer is as large as the
+		// file and N one-page events are flushed at once, N around the capacity of the data area; then the
+		// consumer reads and ACKs event by event on the (exactly) full file
+		prog.Cfg.WriteBuffer = prog.Cfg.MaxPages * ps
+		payload := int(ps) - 28
+		n := int(prog.Cfg.MaxPages) - rapid.IntRange(2, 9).Draw(t, "slack")
+		for i := 0; i < n; i++ {
+			steps = append(steps, QStep{K: QWrite, A: payload - 4}, QStep{K: QNext})
+		}
+		steps = append(steps, QStep{K: QFlush})
+		for i, k := 0, rapid.IntRange(1, 4).Draw(t, "singleAcks"); i < k; i++ {
+			steps = append(steps, QStep{K: QDrain, A: 1}, QStep{K: QAck, A: 1})
+		}
+		steps = append(steps, QStep{K: QWrite, A: rapid.IntRange(1, payload).Draw(t, "extra")}, QStep{K: QNext}, QStep{K: QFlush},
+			QStep{K: QDrain}, QStep{K: QAckAll}, QStep{K: QFlush}, QStep{K: QDrain}, QStep{K: QAckAll})
+	}
 	cycles := rapid.IntRange(2, p.MaxBlocks).Draw(t, "cycles")
 	for i := 0; i < cycles; i++ {
 		switch rapid.IntRange(0, 5).Draw(t, "kind") {
